@@ -96,6 +96,18 @@ def prof_C01(d, rng):
     d["dry_run"] = rng.random() < 0.12
     d["wip"] = rng.random() < 0.08
     d["autoretry"] = False
+    if rng.random() < 0.1:
+        # "... or is pending outside @wip": not-implemented steps as the only fault, @wip frequent
+        d["outcomes"] = ["notimpl"]
+        d["p_fail"] = rng.choice([0.15, 0.3])
+        d["p_undefined"] = 0.0
+        d["p_hook_fail"] = 0.0
+        d["cleanups"] = False
+        d["nested"] = False
+        d["async_steps"] = False
+        d["wip_bias"] = True
+        d["dry_run"] = False
+        return
     if rng.random() < 0.3:
         # a single raising hook or cleanup in an otherwise passing run
         d["outcomes"] = []
